@@ -57,11 +57,15 @@ type Op struct {
 	TSync bool   `json:"tsync"`
 	NNP   bool   `json:"nnp"`
 	Kind  string `json:"kind"`
+	Log   bool   `json:"log,omitempty"` // SECCOMP_FILTER_FLAG_LOG: no effect on the modelled state
 }
 
 func (o Op) String() string {
 	if o.Op == "supported" {
 		return fmt.Sprintf("T%d.Supported()", o.T)
+	}
+	if o.Log {
+		return fmt.Sprintf("T%d.Load(%s,tsync=%v,nnp=%v,log)", o.T, o.Kind, o.TSync, o.NNP)
 	}
 	return fmt.Sprintf("T%d.Load(%s,tsync=%v,nnp=%v)", o.T, o.Kind, o.TSync, o.NNP)
 }
@@ -204,6 +208,9 @@ func AllOps(n int) []Op {
 			for _, ts := range []bool{false, true} {
 				for _, nnp := range []bool{false, true} {
 					ops = append(ops, Op{Op: "load", T: t, TSync: ts, NNP: nnp, Kind: k})
+					if k == KindA || k == KindB {
+						ops = append(ops, Op{Op: "load", T: t, TSync: ts, NNP: nnp, Kind: k, Log: true})
+					}
 				}
 			}
 		}
